@@ -25,7 +25,8 @@ from translate import c55 as tr
 # hostile value universe (JSON descriptions -> real objects)
 
 EXC_NAMES = ["ValueError", "TypeError", "KeyError", "AttributeError", "MemoryError", "StopIteration",
-             "KeyboardInterrupt", "SystemExit", "GeneratorExit", "CustomBase", "EvilExc", "EvilBase"]
+             "KeyboardInterrupt", "SystemExit", "GeneratorExit", "CustomBase", "EvilExc", "EvilBase",
+             "KeyErrorBare", "KeyErrorEvilKey", "IndexErrorBare"]
 
 
 class CustomBase(BaseException):
@@ -48,7 +49,21 @@ class EvilBase(BaseException):
         raise CustomBase("repr of base exception")
 
 
+class _EvilKey:
+    def __repr__(self):
+        raise CustomBase("repr of key")
+
+    def __str__(self):
+        raise ValueError("str of key")
+
+
 def make_exc(name: str) -> BaseException:
+    if name == "KeyErrorBare":
+        return KeyError()                    # no args at all
+    if name == "IndexErrorBare":
+        return IndexError()
+    if name == "KeyErrorEvilKey":
+        return KeyError(_EvilKey())          # the missing key's own repr / str raise
     cls = {"CustomBase": CustomBase, "EvilExc": EvilExc, "EvilBase": EvilBase}.get(name)
     if cls is None:
         import builtins
@@ -112,6 +127,22 @@ class Hostile:
         return self._do("getitem", dflt)
 
 
+class HostileLen:
+    """object without __bool__ whose truth value goes through a scripted __len__"""
+
+    def __init__(self, spec):
+        self._spec = spec
+
+    def __len__(self):
+        beh = self._spec.get("len", "ok")
+        if beh.startswith("raise:"):
+            raise make_exc(beh[6:])
+        return {"nontext": "x", "neg": -1}.get(beh, 1)
+
+    def getTraceback(self, *a, **k):
+        return "Traceback: hostile-len\n"
+
+
 class FakeFailure:
     def __init__(self, spec):
         self._spec = spec
@@ -150,6 +181,8 @@ def build(v):
             return TFailure()
     if t == "fakefailure":
         return FakeFailure(v)
+    if t == "hostlen":
+        return HostileLen(v)
     if t == "flatten":      # marker: replaced by a real flattenEvent result in impl
         return None
     raise ValueError(t)
@@ -473,10 +506,18 @@ SYSTEMS = [V("str", "sys"), V("none"), V("bytes", "ff"), V("int", 7), V("str", "
 NAMESPACES = [V("str", "ns"), V("none"), V("int", 7), V("bytes", "6e")]
 FAILURES = [V("failure", "ZeroDivisionError"), V("failure", "EvilExc"), V("failure", "EvilBase"),
             V("failure", "KeyboardInterrupt"), V("int", 5), V("none"), V("str", "not a failure")] + \
-           [V("fakefailure", tb=b) for b in ["ok", "nontext", "bytes", "none"] + ["raise:" + e for e in EXC_NAMES]]
+           [V("fakefailure", tb=b) for b in ["ok", "nontext", "bytes", "none"] + ["raise:" + e for e in EXC_NAMES]] + \
+           [V("hostlen", len=b) for b in ["ok", "nontext", "neg", "raise:ValueError", "raise:KeyboardInterrupt",
+                                          "raise:CustomBase"]] + \
+           [{"t": "hostile", "bool": "raise:" + e} for e in ("ValueError", "SystemExit", "EvilBase")]
+
+
+HOSTLEN = [V("hostlen", len=b) for b in ["raise:ValueError", "raise:CustomBase", "nontext", "neg"]]
 
 
 def pick(rng, pool, hostile_p=0.3):
+    if rng.random() < 0.04:
+        return rng.choice(HOSTLEN)
     if rng.random() < hostile_p:
         return rand_hostile(rng)
     return rng.choice(pool)
@@ -551,6 +592,14 @@ def corpus():
         base(log_failure=V("fakefailure", tb="raise:EvilExc")),
         base(log_failure=V("fakefailure", tb="raise:EvilBase")),
         base(log_failure=V("failure", "EvilBase")),
+        base(log_failure=h(bool="raise:ValueError")),
+        base(log_failure=h(bool="raise:SystemExit")),
+        base(log_failure=V("hostlen", len="raise:ValueError")),
+        base(log_failure=V("hostlen", len="raise:CustomBase")),
+        {"entry": "formatEvent", "event": {"log_format": V("str", "{x[k]}"), "x": h(getitem="raise:KeyErrorBare")}},
+        {"entry": "formatEvent", "event": {"log_format": V("str", "{x[k]} {x.a}"), "x": h(getitem="raise:KeyErrorEvilKey",
+                                                                                         getattr="raise:KeyErrorBare")}},
+        {"entry": "formatEventAsClassicLogText", "event": {"log_format": V("str", "{x[0]}"), "x": h(getitem="raise:KeyErrorEvilKey")}},
         {"entry": "formatEventAsClassicLogText", "event": {"log_format": V("str", "x"), "log_time": V("str", "y")}},
         {"entry": "formatEvent", "event": {"log_format": V("str", "{x}"),
                                            "x": h(str="raise:KeyboardInterrupt", repr="raise:SystemExit",
